@@ -126,6 +126,14 @@ fn claims_for(r: &mut Rng, same: bool, thread: u32, i: u64) -> Value {
         v["seq"] = json!(i);
         v["rnd"] = json!(format!("{:x}", r.next()));
     }
+    if i == 1 {
+        // one credential with several hundred disclosures (pool / batch boundaries at 256, 257)
+        v["wide"] = Value::Array((0..300).map(|k| json!(k)).collect());
+    }
+    if i == 2 {
+        // one disclosure whose text is larger than 64 KiB (digest must cover all of it)
+        v["portrait"] = json!("A".repeat(70_000));
+    }
     v
 }
 
